@@ -8,6 +8,7 @@
 ; bit casts: injective views of the IEEE bit patterns (values never inspected numerically here)
 (declare-fun f32frombits (Int) (_ FloatingPoint 8 24))
 (declare-fun f64frombits (Int) (_ FloatingPoint 11 53))
-; product of n consecutive entries of an int array starting at off (number of elements of a shape)
-(define-fun-rec prod ((a (Array Int Int)) (off Int) (n Int)) Int
-  (ite (<= n 0) 1 (* (prod a off (- n 1)) (select a (+ off (- n 1))))))
+; product of n consecutive entries of an int array starting at off (number of elements of a shape).
+; Uninterpreted; its defining equations are the axioms prod_base / prod_step in lemmas.smt2, which
+; are instantiated at the ground prod-terms of each query (controlled unfolding).
+(declare-fun prod ((Array Int Int) Int Int) Int)
